@@ -6,6 +6,8 @@ F  affine forms with modulus wrappers: exact mathematical value over the input a
 """
 import itertools
 
+_uid = itertools.count(1)
+
 # ----------------------------------------------------------------------------------------------
 # bits
 
@@ -22,10 +24,8 @@ def bdep(*bs, extra=frozenset()):
     s = set(extra)
     for b in bs:
         s |= bdeps(b)
-    if not s:
-        # a value that depends on nothing but is not known: keep as unknown-with-no-deps
-        return ("d", frozenset())
-    return ("d", frozenset(s))
+    # the third component identifies the value instance: two 'd' bits are the same value iff same uid
+    return ("d", frozenset(s), next(_uid))
 
 
 def bnot(b):
@@ -77,7 +77,7 @@ def bxor(a, b):
         return bnot(b)
     if b == 1:
         return bnot(a)
-    if a == b and a[0] in "cn":
+    if a == b:
         return 0
     if a[0] in "cn" and b[0] in "cn" and a[1:] == b[1:]:
         return 1
@@ -87,7 +87,7 @@ def bxor(a, b):
 def bjoin(a, b, cond_deps=frozenset()):
     """join at a control-flow merge; cond_deps = deps of the branch conditions that separate the paths"""
     if a == b:
-        return a
+        return a  # same value on both paths (0/1/copy/not, or the same unknown instance)
     return bdep(a, b, extra=cond_deps)
 
 
@@ -119,8 +119,23 @@ def bits_all_deps(bits, extra=frozenset()):
 
 
 def bits_dep_all(w, deps):
-    d = ("d", frozenset(deps))
-    return tuple(d for _ in range(w))
+    fs = frozenset(deps)
+    return tuple(("d", fs, next(_uid)) for _ in range(w))
+
+
+def bits_same(a, b):
+    """equality modulo the instance ids of unknown bits (for fixpoint detection)"""
+    if len(a) != len(b):
+        return False
+    for x, y in zip(a, b):
+        if x == y:
+            continue
+        if x in (0, 1) or y in (0, 1):
+            return False
+        if x[0] == "d" and y[0] == "d" and x[1] == y[1]:
+            continue
+        return False
+    return True
 
 
 def bits_carry_chain(a, b, w, extra=frozenset()):
@@ -129,7 +144,7 @@ def bits_carry_chain(a, b, w, extra=frozenset()):
     acc = set(extra)
     for i in range(w):
         acc |= bdeps(a[i]) | bdeps(b[i])
-        out.append(("d", frozenset(acc)))
+        out.append(("d", frozenset(acc), next(_uid)))
     return tuple(out)
 
 
